@@ -36,6 +36,13 @@ DESIGNED_NOT_REGISTERED = [
      'isotropy with a non-virgin viscous distortion Fv -> Q Fv Q^T: the code inverts Fv with jnp.linalg.inv (relational encoding: fresh A with Fv A = I); '
      'the cut lemma Ce(Q Fv Q^T) = Q Ce(Fv) Q^T needs uniqueness of the solution of a symbolic 3x3 system and stays unknown (20 s lemma, 300 s monolithic); '
      'registered with the virgin state (quick) and, for J2Plastic whose inverse is the closed-form TensorMath.inv, with a rotated state (thorough)'),
+    ('O5 for compute_material_qoi (J2Plastic plastic dissipation, Hyper/MultiBranchHyperViscoelastic viscous dissipation of the step)',
+     'a dissipation qoi is not an energy density, so objectivity / rest-state obligations on it would demand more than C08 states; built and run once, then '
+     'withdrawn.  Observation from that run (hand-checked on the real code, E=3, nu=0.3, Y0=9, H=0.5, dt=1 and dt=0.1): J2Plastic compute_material_qoi(H=0, virgin '
+     'state) and its H-derivative are NaN for kinematics \'small deformations\' and \'seth hill\' (also at H = 0.01 e1 x e2), 0 for \'large deformations\': '
+     '_compute_dissipation is hard-wired to compute_elastic_logarithmic_strain and inverts the (zero) plastic strain as if it were Fp.  With the '
+     'kinematics-selected strain passed in, rest value/derivative are 0 for all three options; objectivity of the dissipation (large deformations, viscous models) '
+     'and viscous rest state discharged'),
     ('O3 for the spectral models',
      'P F^T symmetric through the custom JVP of the eigen-decomposition: by design left to C10/C12 (DESIGN.md section 5, C08-O3 is for closed-form models)'),
     ('O1.objectivity_vmap2 for J2Plastic',
@@ -621,17 +628,32 @@ def aux_sample(m, names, st0, rng):
     return out
 
 
-def energy(m, mat, a):
-    """W(H) for the auxiliary values in dict a (missing state -> virgin state of the model)"""
+ENTRY_POINTS = {
+    # every energy-like callable of the namedtuple a constructor returns (besides compute_energy_density = 'energy')
+    'plain': [],
+    'j2': [],                               # compute_material_qoi = plastic dissipation: not an energy density (see DESIGNED_NOT_REGISTERED)
+    'visco': [],                            # compute_material_qoi = viscous dissipation of the step: not an energy density
+    'pf': ['output_energy', 'strain_energy', 'phase_potential', 'state_new'],   # state_new[0] = undamaged-history strain energy
+}
+ENTRY_ATTR = {'energy': 'compute_energy_density', 'output_energy': 'compute_output_energy_density', 'strain_energy': 'compute_strain_energy_density',
+              'phase_potential': 'compute_phase_potential_density', 'material_qoi': 'compute_material_qoi', 'state_new': 'compute_state_new'}
+
+
+def energy(m, mat, a, entry='energy'):
+    """H -> value of the entry point `entry` of the material namedtuple, for the auxiliary values in dict a
+    (missing state -> virgin state of the model)"""
     st = a['state'] if 'state' in a else mat.compute_initial_state()
+    f = getattr(mat, ENTRY_ATTR[entry])
     if m.kind == 'plain':
-        return lambda H: mat.compute_energy_density(H, st, 0.0)
+        return lambda H: f(H, st, 0.0)
     if m.kind == 'j2':
-        return lambda H: mat.compute_energy_density(H, st, a.get('dt', 1.0))
+        return lambda H: f(H, st, a.get('dt', 1.0))
     if m.kind == 'visco':
-        return lambda H: mat.compute_energy_density(H, st, a['dt'])
+        return lambda H: f(H, st, a['dt'])
     if m.kind == 'pf':
-        return lambda H: mat.compute_energy_density(H, a['phase'], a['gphase'], st, 0.0)
+        if entry == 'state_new':
+            return lambda H: f(H, a['phase'], a['gphase'], st, 0.0)[0]
+        return lambda H: f(H, a['phase'], a['gphase'], st, 0.0)
     raise ValueError(m.kind)
 
 
@@ -758,7 +780,7 @@ NOTE_ROT = 'float re-evaluation of a solver model accepts |q|^2 = 1 within 1e-9 
 
 
 # =========================================================================================== O1 / O2 generic driver
-def _sym_case(h, m, what, full, state, batch=False, quat=None):
+def _sym_case(h, m, what, full, state, batch=False, quat=None, entry='energy'):
     """what: 'left' W(QF) = W(F)  |  'right' W(F Q^T) = W(F) with the reference-side transformation of the auxiliaries"""
     quat = full if quat is None else quat
     with quiet():
@@ -790,11 +812,11 @@ def _sym_case(h, m, what, full, state, batch=False, quat=None):
                 a2['state'] = jnp.hstack([st[:off]] + blocks)
         if batch:
             if a2 is not a and 'gphase' in a:
-                Ws = jax.vmap(lambda Hb, gb: energy(m, mat, dict(a, gphase=gb))(Hb))(jnp.stack([H, H2]), jnp.stack([a['gphase'], a2['gphase']]))
+                Ws = jax.vmap(lambda Hb, gb: energy(m, mat, dict(a, gphase=gb), entry)(Hb))(jnp.stack([H, H2]), jnp.stack([a['gphase'], a2['gphase']]))
             else:
-                Ws = jax.vmap(energy(m, mat, a))(jnp.stack([H, H2]))
+                Ws = jax.vmap(energy(m, mat, a, entry))(jnp.stack([H, H2]))
             return Ws[0], Ws[1]
-        W1, W2 = energy(m, mat, a)(H), energy(m, mat, a2)(H2)
+        W1, W2 = energy(m, mat, a, entry)(H), energy(m, mat, a2, entry)(H2)
         if elastic_out:
             st, st2 = (a['state'], a2['state']) if 'state' in a else (mat.compute_initial_state(),) * 2
             return W1, W2, mat.compute_state_new(H, st, 1.0)[0] - st[0], mat.compute_state_new(H2, st2, 1.0)[0] - st2[0]
@@ -808,7 +830,7 @@ def _sym_case(h, m, what, full, state, batch=False, quat=None):
         else:
             r = onp.array([onp.cos(t), onp.sin(t)])
         return [0.1 * rng.normal(size=(3, 3) if full else (2, 2)), r, m.sample(rng)] + aux_sample(m, [n for n, _ in aux], st0, rng)
-    label = '%s:%s:%s%s' % (m.key, what, 'SO3' if quat else ('3x3_inplane' if full else 'inplane'), ':vmap2' if batch else '')
+    label = '%s%s:%s:%s%s' % (m.key, '' if entry == 'energy' else '.' + entry, what, 'SO3' if quat else ('3x3_inplane' if full else 'inplane'), ':vmap2' if batch else '')
     c = mk_case(h, body, ex, sampler, label, cond='elastic' if elastic_out else 'uf', merge_rot='rot', equivariant=(what == 'right'))
 
     def spec(i, o):
@@ -920,15 +942,19 @@ def _common_notes(h, m, with_tuf=True):
 
 def _run_symmetry(h, keys, what, full, state, cap, batch=False, order=('core', 'nlsat'), quat=None):
     for key in keys:
-        if _skip(h, key):
+        key, entry = (key, 'energy') if isinstance(key, str) else key
+        qname = key if entry == 'energy' else '%s.%s' % (key, entry)
+        if _skip(h, qname):
             continue
         m = model(key)
         _common_notes(h, m)
-        c, spec = _sym_case(h, m, what, full, state, batch=batch, quat=quat)
+        if entry != 'energy':
+            h.encoded('%s.create_material_model_functions -> %s' % (m.enc[0].__module__, ENTRY_ATTR[entry]))
+        c, spec = _sym_case(h, m, what, full, state, batch=batch, quat=quat, entry=entry)
         extra = list(getattr(c.ctx, 'c08_elastic', []))
         if what == 'right':
             extra += _equivariance(c)
-        _prove(c, m, '%s%s' % (m.key, '.vmap2' if batch else ''), spec, cap=cap, order=order, extra_assumes=extra)
+        _prove(c, m, '%s%s' % (qname, '.vmap2' if batch else ''), spec, cap=cap, order=order, extra_assumes=extra)
 
 
 FINITE_PLAIN = ['linear_elastic[green lagrange]', 'linear_elastic[logarithmic]', 'neohookean[adagio]', 'neohookean[coupled]', 'gent']
@@ -1064,7 +1090,7 @@ def _pow_zero_axioms(ctx):
     return ax
 
 
-def _rest_case(h, m):
+def _rest_case(h, m, entry='energy'):
     with_dt = m.kind == 'visco' or (m.hardening or '').endswith('rate')
     names = ['mod'] + (['dt'] if with_dt else [])
     ex = dict([('mod', onp.array(m.example))] + ([('dt', onp.asarray(0.1))] if with_dt else []))
@@ -1075,7 +1101,7 @@ def _rest_case(h, m):
         aa = dict(a)
         if m.kind == 'pf':
             aa.update(phase=0.0, gphase=jnp.zeros(3))
-        W = energy(m, mat, aa)
+        W = energy(m, mat, aa, entry)
         Z = jnp.zeros((3, 3))
         return W(Z), jax.grad(W)(Z)
 
@@ -1088,36 +1114,41 @@ def _rest_case(h, m):
         asm = m.admissible(mod) + aux_assumes(m, i)
         tol = v_mul(1e-12, numr)
         sc = m.scale(mod)
-        return asm, [Le(v_mul(v_abs(s0(o[0])), den), tol, scale=sc, name='energy'),
-                     Le([v_mul(v_abs(x), den) for x in o[1].ravel()], tol, scale=sc, name='stress')]
+        return asm, [Le(v_mul(v_abs(s0(o[0])), den), tol, scale=sc, name='energy' if entry == 'energy' else 'value'),
+                     Le([v_mul(v_abs(x), den) for x in o[1].ravel()], tol, scale=sc, name='stress' if entry == 'energy' else 'dH')]
     return names, ex, body, sampler, spec
 
 
 def _rest(h, keys, cap=60):
     for key in keys:
-        if _skip(h, key):
+        key, entry = (key, 'energy') if isinstance(key, str) else key
+        qname = key if entry == 'energy' else '%s.%s' % (key, entry)
+        if _skip(h, qname):
             continue
         m = model(key)
         _common_notes(h, m, with_tuf=False)
-        names, ex, body, sampler, spec = _rest_case(h, m)
-        label = '%s:rest' % m.key
+        if entry != 'energy':
+            h.encoded('%s.create_material_model_functions -> %s' % (m.enc[0].__module__, ENTRY_ATTR[entry]))
+        names, ex, body, sampler, spec = _rest_case(h, m, entry)
+        label = '%s:rest' % qname
         try:
             c = mk_case(h, body, ex, sampler, label, cond='uf', patch=None)
-            c.prove(m.key, spec, cap=cap, axioms=True, extra_assumes=_pow_zero_axioms(c.ctx))
+            c.prove(qname, spec, cap=cap, axioms=True, extra_assumes=_pow_zero_axioms(c.ctx))
         except ValueError as e:
             if 'non-finite' not in str(e):
                 raise
-            _nonfinite_direct(h, m, names, ex, body, str(e))
+            _nonfinite_direct(h, m, names, ex, body, str(e), entry=entry, qname=qname)
 
 
-def _nonfinite_direct(h, m, names, ex, body, why):
+def _nonfinite_direct(h, m, names, ex, body, why, entry='energy', qname=None):
     """the real-arithmetic encoding met a NaN/inf *constant*: the reference-state value computed by the real code from
     concrete arguments is itself non-finite.  Establish it directly on the real (jitted) function at the example moduli."""
     def real(vals):
         with quiet():
             out = jax.jit(body)(*[jnp.asarray(onp.asarray(vals[n], dtype=float)) for n in names])
         return float(out[0]), onp.asarray(out[1])
-    qn = '%s/%s.finite' % (h.ob, m.key)
+    qname = qname or m.key
+    qn = '%s/%s.finite' % (h.ob, qname)
     if h.replay is not None and h.replay.get('query') == qn:
         W0, P0 = real(h.replay['inputs'])
         bad = not (math.isfinite(W0) and onp.all(onp.isfinite(P0)))
@@ -1129,20 +1160,22 @@ def _nonfinite_direct(h, m, names, ex, body, why):
     if not bad:
         raise ValueError('non-finite constant in the encoding but finite values on the real code: ' + why)
     if h.replay is None:
-        h.violation('%s.finite' % m.key, vals, 'reference state (H = 0, virgin state) of %s: W = %r, dW/dH = %s on the real code (must be 0); the encoding stopped at a non-finite constant (%s)'
-                    % (m.key, W0, onp.array2string(P0, precision=3).replace('\n', ' '), why[:80]))
+        h.violation('%s.finite' % qname, vals, 'reference state (H = 0, virgin state) of %s: value = %r, d/dH = %s on the real code (must be 0); the encoding stopped at a non-finite constant (%s)'
+                    % (qname, W0, onp.array2string(P0, precision=3).replace('\n', ' '), why[:80]))
     # the energy alone (no derivative) is still decided by the solver
     try:
         def bodyW(*arrs):
             a = dict(zip(names, arrs))
             mat = m.make(a['mod'])
-            return energy(m, mat, dict(a))(jnp.zeros((3, 3)))
-        c = mk_case(h, bodyW, ex, lambda rng: [m.sample(rng)] + ([rng.uniform(0.05, 0.5)] if 'dt' in names else []), '%s:rest_energy' % m.key, cond='uf', patch=None)
+            if m.kind == 'pf':
+                a.update(phase=0.0, gphase=jnp.zeros(3))
+            return energy(m, mat, dict(a), entry)(jnp.zeros((3, 3)))
+        c = mk_case(h, bodyW, ex, lambda rng: [m.sample(rng)] + ([rng.uniform(0.05, 0.5)] if 'dt' in names else []), '%s:rest_value' % qname, cond='uf', patch=None)
 
         def specW(i, o):
             den, numr = m.natural(i['mod'])
-            return m.admissible(i['mod']) + aux_assumes(m, i), Le(v_mul(v_abs(s0(o)), den), v_mul(1e-12, numr), scale=m.scale(i['mod']), name='energy')
-        c.prove(m.key, specW, cap=60, axioms=True, extra_assumes=_pow_zero_axioms(c.ctx))
+            return m.admissible(i['mod']) + aux_assumes(m, i), Le(v_mul(v_abs(s0(o)), den), v_mul(1e-12, numr), scale=m.scale(i['mod']), name='energy' if entry == 'energy' else 'value')
+        c.prove(qname, specW, cap=60, axioms=True, extra_assumes=_pow_zero_axioms(c.ctx))
     except ValueError as e:
         if 'non-finite' not in str(e):
             raise
@@ -1204,3 +1237,97 @@ def o4_j2_rate(h):
     h.bounds(BOUNDS_REST + '; rate sensitivity stress S > 0, exponent m > 0, reference rate > 0')
     h.assume_note('ground instances of pow(0, y) = 0 for y > 0 and pow(x, 0) = 1 for the pow terms that occur')
     _rest(h, ['j2plastic[%s,linear,rate]' % k for k in ('large deformations', 'small deformations', 'seth hill')], cap=120)
+
+
+# =========================================================================================== O5 every energy-like entry point
+# compute_energy_density is covered by O1-O4; the namedtuples returned by the constructors expose further energy
+# DENSITIES (ENTRY_POINTS; only the phase-field model has any).  They get the same objectivity / isotropy / rest-state
+# obligations, plus the decomposition identity between the four phase-field densities.  compute_material_qoi (a
+# dissipation, not an energy density) is outside the property: see DESIGNED_NOT_REGISTERED.
+PF_L, PF_S = 'phasefield_threshold[large deformations]', 'phasefield_threshold[small deformations]'
+EXTRA_FINITE = [(PF_L, e) for e in ENTRY_POINTS['pf']]
+BOUNDS_ENTRY = ('entry points: PhaseFieldThreshold compute_output_energy_density / compute_strain_energy_density / compute_phase_potential_density / compute_state_new[0] '
+                '(the stored strain energy density); the MaterialModel tuples of the other modules expose no energy density besides compute_energy_density; ')
+
+
+EXTRA_PF = EXTRA_FINITE
+
+@obligation(P, 'O5.entry_points_objectivity_phasefield', cap=500)
+def o5_objectivity_pf(h):
+    """f(Q(H+I) - I) = f(H) for the further energy densities of PhaseFieldThreshold (output, strain energy, phase potential,
+    state_new[0]): free 3x3 H with det F > 0 (contains the plane-strain block form), every in-plane rotation, symbolic
+    moduli, phase, grad phase"""
+    h.bounds(BOUNDS_ENTRY + BOUNDS_3X3)
+    _run_symmetry(h, EXTRA_PF, 'left', True, 'symbolic', cap=120, quat=False)
+
+
+@obligation(P, 'O5.entry_points_isotropy', cap=500)
+def o5_isotropy(h):
+    """f((H+I) Q^T - I) = f(H) (grad phase -> Q grad phase; virgin viscous state) for the same entry points"""
+    h.bounds(BOUNDS_ENTRY + BOUNDS_3X3.replace('inelastic state: all 9 (27) entries free, eqps >= 0', 'inelastic state: virgin'))
+    h.assume_note(NOTE_EQV)
+    _run_symmetry(h, EXTRA_FINITE, 'right', True, 'virgin', cap=120, quat=False)
+
+
+@obligation(P, 'O5.entry_points_objectivity_SO3', tiers=('thorough',), cap=1200)
+def o5_objectivity_so3(h):
+    """objectivity of the further entry points for every rotation of SO(3) (unit quaternion)"""
+    h.bounds(BOUNDS_ENTRY + BOUNDS_SO3)
+    _run_symmetry(h, EXTRA_FINITE, 'left', True, 'symbolic', cap=400)
+
+
+@obligation(P, 'O5.entry_points_isotropy_SO3', tiers=('thorough',), cap=1200)
+def o5_isotropy_so3(h):
+    """isotropy of the further entry points for every rotation of SO(3)"""
+    h.bounds(BOUNDS_ENTRY + BOUNDS_SO3 + '; inelastic state virgin')
+    h.assume_note(NOTE_EQV)
+    _run_symmetry(h, EXTRA_FINITE, 'right', True, 'virgin', cap=400)
+
+
+@obligation(P, 'O5.entry_points_rest_phasefield_large', cap=500)
+def o5_rest_pf_l(h):
+    """value = 0 and d/dH = 0 at H = 0, virgin state, phase = 0, grad phase = 0 for the further entry points (PhaseFieldThreshold, large deformations),
+    symbolic moduli, real tensor code constant-folded"""
+    h.bounds(BOUNDS_ENTRY + BOUNDS_REST)
+    _rest(h, [(PF_L, e) for e in ENTRY_POINTS['pf']])
+
+
+@obligation(P, 'O5.entry_points_rest_phasefield_small', cap=500)
+def o5_rest_pf_s(h):
+    """value = 0 and d/dH = 0 at H = 0, virgin state, phase = 0, grad phase = 0 for the further entry points (PhaseFieldThreshold, small deformations),
+    symbolic moduli, real tensor code constant-folded"""
+    h.bounds(BOUNDS_ENTRY + BOUNDS_REST)
+    _rest(h, [(PF_S, e) for e in ENTRY_POINTS['pf']])
+
+
+@obligation(P, 'O5.phasefield_decomposition', cap=300)
+def o5_decomposition(h):
+    """PhaseFieldThreshold, both kinematics options: for every H (free 3x3, det F > 0), phase in [0,1], grad phase and
+    admissible moduli   compute_energy_density = compute_strain_energy_density + compute_phase_potential_density,
+    compute_output_energy_density = compute_energy_density,  compute_state_new[0] = compute_strain_energy_density.
+    (As coded: energy_density(strain, phase, grad) = strain_energy_density(strain, phase) + phase_potential_density(phase, grad)
+    with strain = the kinematics-selected strain of H; every closure must use that same strain.)  The spectral log strain
+    is an uninterpreted tensor function, so what is proved is that all closures pass the *same* argument to it."""
+    h.bounds('H: free 3x3 (9 reals), det(H+I) > 0; phase in [0,1]; grad phase: all of R^3; E > 0, -1 < nu < 1/2, Gc > 0, l > 0: all reals')
+    for key in (PF_L, PF_S):
+        if _skip(h, key):
+            continue
+        m = model(key)
+        _common_notes(h, m)
+        names = ['H', 'mod', 'phase', 'gphase']
+
+        def body(H, mod, phase, gphase, m=m):
+            mat = m.make(mod)
+            a = dict(phase=phase, gphase=gphase)
+            return tuple(energy(m, mat, a, e)(H) for e in ['energy'] + ENTRY_POINTS['pf'])
+        ex = dict(H=0.1 * onp.ones((3, 3)), mod=onp.array(m.example), phase=onp.asarray(0.2), gphase=onp.array([0.3, -0.2, 0.1]))
+        c = mk_case(h, body, ex, lambda rng, m=m: [0.1 * rng.normal(size=(3, 3)), m.sample(rng), rng.uniform(0.0, 0.9), rng.normal(size=3)], '%s:decomposition' % m.key)
+
+        def spec(i, o, m=m):
+            tot, outp, strn, pot, stn = [s0(x) for x in o]
+            asm = [v_lt(0.0, det3(F_of(i)))] + m.admissible(i['mod']) + aux_assumes(m, i)
+            sc = v_add(m.scale(i['mod']), v_abs(i['mod'][2]))
+            return asm, [Eq(tot, v_add(strn, pot), scale=sc, name='total_eq_strain_plus_phase_potential'),
+                         Eq(outp, tot, scale=sc, name='output_eq_total'),
+                         Eq(stn, strn, scale=sc, name='state_new_eq_strain_energy')]
+        _prove(c, m, m.key, spec, cap=120)
